@@ -470,7 +470,23 @@ Definition arr_close (tol : Q) (a b : arr) : bool :=
   | _, _ => false
   end.
 Definition info_eqb (a b : option (list Z)) : bool := opt_eqb zl_eqb a b.
-Definition obs_close (tol : Q) (a b : bool * arr) : bool := Bool.eqb (fst a) (fst b) && arr_close tol (snd a) (snd b).
+(* observations are compared relative to max(largest expected entry, magnitude the observation map gives to the largest
+   entry of the whole solution): an expected 0 at a node next to O(s) values may come back as rounding noise of size eps*s *)
+Definition omap_gain (c : omap_code) (n : nat) (s : Q) : Q :=
+  match c with
+  | OMSquare => s * s
+  | OMScale k => Qabs (this k) * s
+  | OMMat M => inject_Z (Z.of_nat n) * maxabs2 M * s
+  | _ => s
+  end.
+Definition arr_close_fl (tol floor : Q) (a b : arr) : bool :=
+  match a, b with
+  | A0 x, A0 y => vrel tol (qmax floor (maxabs [y])) [x] [y]
+  | A1 x, A1 y => vrel tol (qmax floor (maxabs y)) x y
+  | A2 x, A2 y => mrel tol (qmax floor (maxabs2 y)) x y
+  | _, _ => false
+  end.
+Definition obs_close (tol floor : Q) (a b : bool * arr) : bool := Bool.eqb (fst a) (fst b) && arr_close_fl tol floor (snd a) (snd b).
 
 (* ---------------- one run of a time-dependent PDE object through the direct API ---------------- *)
 Inductive td_obs :=
@@ -497,11 +513,12 @@ Definition td_run (c : td_cfg) (par : option qv) : td_obs :=
       end
   end.
 
-Definition td_obs_close (tol otol : Q) (a b : td_obs) : bool :=
+Definition td_floor (om : omap_code) (levels : list qv) : Q := omap_gain om (length (hd [] levels)) (maxabs2 levels).
+Definition td_obs_close (tol otol : Q) (om : omap_code) (a b : td_obs) : bool :=
   match a, b with
   | TInitErr e, TInitErr f => err_eqb e f
   | TSolveErr e, TSolveErr f => err_eqb e f
-  | TRun l i o, TRun l' i' o' => qcll_rel tol l l' && info_eqb i i' && res_close (obs_close otol) o o'
+  | TRun l i o, TRun l' i' o' => qcll_rel tol l l' && info_eqb i i' && res_close (obs_close otol (td_floor om l')) o o'
   | _, _ => false
   end.
 
@@ -510,7 +527,7 @@ Definition certificates_ok (ss : solver_spec) (i1 : list i1entry) (i2 : list i2e
 
 (* observed = what assemble(p); solve(); observe(sol) did on the real object *)
 Definition check_td (c : td_cfg) (p : qv) (observed : td_obs) : bool :=
-  td_obs_close (c_tol c) (c_otol c) observed (td_run c (Some p)) && certificates_ok (c_solver c) [] (c_itbl c).
+  td_obs_close (c_tol c) (c_otol c) (c_omap c) observed (td_run c (Some p)) && certificates_ok (c_solver c) [] (c_itbl c).
 
 (* PDEModel.forward on the same configuration: domain geometry map x -> a*x + d, previous parameter left in the
    object by an earlier call; observed = the returned array or the exception *)
@@ -525,7 +542,8 @@ Definition td_model_forward (c : td_cfg) (a d : Qc) (prev : option qv) (x : qv) 
                     (init_grids (c_gsol c) (c_gobs c)) (c_method c) (c_times c) tobs prev) x
   end.
 Definition check_td_forward (c : td_cfg) (a d : Qc) (prev : option qv) (x : qv) (observed : res arr) : bool :=
-  res_close (arr_close (c_otol c)) observed (td_model_forward c a d prev x) && certificates_ok (c_solver c) [] (c_itbl c).
+  let floor := match td_run c (Some (affine_par2fun a d x)) with TRun l _ _ => td_floor (c_omap c) l | _ => 0%Q end in
+  res_close (arr_close_fl (c_otol c) floor) observed (td_model_forward c a d prev x) && certificates_ok (c_solver c) [] (c_itbl c).
 
 (* ---------------- steady-state runs ---------------- *)
 Inductive ss_obs :=
@@ -544,14 +562,14 @@ Definition ss_run (c : ss_cfg) (assembled : bool) (p : qv) : ss_obs :=
       SRun sol info (ss_observe (omap_fun (s_omap c)) (interp1_of (s_tol c) (s_itbl c))
                                 (init_grids (s_gsol c) (s_gobs c)) sol)
   end.
-Definition ss_obs_close (tol otol : Q) (a b : ss_obs) : bool :=
+Definition ss_obs_close (tol otol : Q) (om : omap_code) (a b : ss_obs) : bool :=
   match a, b with
   | SSolveErr e, SSolveErr f => err_eqb e f
-  | SRun l i o, SRun l' i' o' => qcl_rel tol l l' && info_eqb i i' && res_close (obs_close otol) o o'
+  | SRun l i o, SRun l' i' o' => qcl_rel tol l l' && info_eqb i i' && res_close (obs_close otol (omap_gain om (length l') (maxabs l'))) o o'
   | _, _ => false
   end.
 Definition check_ss (c : ss_cfg) (assembled : bool) (p : qv) (observed : ss_obs) : bool :=
-  ss_obs_close (s_tol c) (s_otol c) observed (ss_run c assembled p) && certificates_ok (s_solver c) (s_itbl c) [].
+  ss_obs_close (s_tol c) (s_otol c) (s_omap c) observed (ss_run c assembled p) && certificates_ok (s_solver c) (s_itbl c) [].
 
 Definition ss_model_forward (c : ss_cfg) (a d : Qc) (prev : option qv) (x : qv) : res arr :=
   let s0 := match prev with None => mkSS None | Some q => mkSS (Some (sform_of (s_form c) q)) end in
@@ -559,7 +577,8 @@ Definition ss_model_forward (c : ss_cfg) (a d : Qc) (prev : option qv) (x : qv) 
     (ss_forward qv Z (solver_of (s_tol c) (s_solver c)) (sform_of (s_form c)) (omap_fun (s_omap c))
                 (interp1_of (s_tol c) (s_itbl c)) (init_grids (s_gsol c) (s_gobs c)) s0) x.
 Definition check_ss_forward (c : ss_cfg) (a d : Qc) (prev : option qv) (x : qv) (observed : res arr) : bool :=
-  res_close (arr_close (s_otol c)) observed (ss_model_forward c a d prev x) && certificates_ok (s_solver c) (s_itbl c) [].
+  let floor := match ss_run c true (affine_par2fun a d x) with SRun l _ _ => omap_gain (s_omap c) (length l) (maxabs l) | _ => 0%Q end in
+  res_close (arr_close_fl (s_otol c) floor) observed (ss_model_forward c a d prev x) && certificates_ok (s_solver c) (s_itbl c) [].
 
 (* ---------------- grid bookkeeping: a sequence of setter calls after __init__ ---------------- *)
 Definition check_grids (gs go : grid) (ops : list grid_op) (observed : list bool) : bool :=
